@@ -16,7 +16,8 @@ def run(ctx):
     cases = []
     trip = []
     for logic, pool in ps.items():
-        pool = pool[:40] + rng.sample(pool[40:], min(len(pool) - 40, n - 40)) if len(pool) > n else pool
+        keep = len(lang_scope.MUST[logic]) + 40      # bracketing families and the leaves/depth-1 formulas are always kept
+        pool = pool[:keep] + rng.sample(pool[keep:], min(len(pool) - keep, n - keep)) if len(pool) > n else pool
         step = max(1, len(pool) // 24)
         for lo in range(0, len(pool), step):
             cases.append((logic, pool, lo, min(len(pool), lo + step)))
